@@ -327,6 +327,100 @@ def sharing_violations(results, dic):
     return bad
 
 
+def order_violations(expanded, dic):
+    """ORDER conventions of an ACCEPTED load, predicted from the (comment-free, plate-free) specification alone: wherever
+    the specification is positional the loader keeps the position.  (i) a Parameter's `tensor` list arrives entry by entry;
+    (ii) a Taxa holds its taxa in the order of the `taxa` list, a CatParameter concatenates in the order of `parameters`,
+    an Alignment keeps the order of `sequences`; (iii) in a tree model the i-th taxon of the Taxa is leaf i: the model's
+    taxon names, the leaf nodes of the parsed tree (by label), and - BY TAXON NAME - the leaf's sampling time (from the
+    taxon's own date) and the entry of a branch-length parameter given as a list"""
+    import torch
+
+    bad = []
+    lits = {}
+
+    def walk(j):
+        if isinstance(j, list):
+            for x in j:
+                walk(x)
+        elif isinstance(j, dict):
+            if isinstance(j.get("id"), str) and isinstance(j.get("type"), str):
+                lits.setdefault(j["id"], j)
+            for v in j.values():
+                walk(v)
+    walk(expanded)
+
+    def ident(x):
+        return x if isinstance(x, str) else x.get("id") if isinstance(x, dict) else None
+
+    for i, lit in lits.items():
+        o = dic.get(i)
+        if o is None and i not in dic:
+            continue
+        ty = lit["type"].split(".")[-1]
+        cls = type(o).__name__
+        if ty != cls:
+            continue
+        try:
+            if ty == "Parameter" and isinstance(lit.get("tensor"), list) and set(lit) <= {"id", "type", "tensor", "dtype"}:
+                want = torch.tensor(lit["tensor"], dtype=o.tensor.dtype)
+                if want.shape != o.tensor.shape or not torch.equal(want, o.tensor.detach()):
+                    bad.append(("tensor-entries-reordered", i, lit["tensor"], o.tensor.tolist()))
+            elif ty == "Taxa" and isinstance(lit.get("taxa"), list):
+                want, got = [ident(x) for x in lit["taxa"]], [t.id for t in o]
+                if want != got:
+                    bad.append(("taxa-reordered", i, want, got))
+            elif ty == "CatParameter" and isinstance(lit.get("parameters"), list):
+                want = [ident(x) for x in lit["parameters"]]
+                got = [q.id for q in o._parameter_container.params()]
+                if want != got:
+                    bad.append(("cat-parameters-reordered", i, want, got))
+                parts = [dic[k].tensor for k in want if k in dic]
+                if len(parts) == len(want) and parts and all(q.dim() == parts[0].dim() for q in parts):
+                    try:
+                        cat = torch.cat(parts, dim=lit.get("dim", 0) if isinstance(lit.get("dim", 0), int) else 0)
+                    except Exception:  # noqa: BLE001
+                        cat = None
+                    if cat is not None and cat.shape == o.tensor.shape and not torch.equal(cat, o.tensor.detach()):
+                        bad.append(("cat-parameters-reordered", i, cat.tolist(), o.tensor.tolist()))
+            elif ty == "Alignment" and isinstance(lit.get("sequences"), list):
+                want = [(q.get("taxon"), q.get("sequence")) for q in lit["sequences"] if isinstance(q, dict)]
+                got = [(q.taxon, q.sequence) for q in o]
+                if want != got:
+                    bad.append(("sequences-reordered", i, want, got))
+            elif ty in c13_gen.TREES:
+                taxa = dic.get(ident(lit.get("taxa")))
+                if type(taxa).__name__ != "Taxa":
+                    continue
+                names = [t.id for t in taxa]
+                if list(o.taxa) != names:
+                    bad.append(("tree-taxa-reordered", i, names, list(o.taxa)))
+                nodes = {n.taxon.label: n.index for n in o.tree.leaf_node_iter()}
+                if nodes != {nm: k for k, nm in enumerate(names)}:
+                    bad.append(("leaf-index-not-taxon-position", i, names, nodes))
+                if hasattr(o, "sampling_times") and all("date" in t for t in taxa):
+                    dates = {t.id: float(t["date"]) for t in taxa}
+                    hi, lo_ = max(dates.values()), min(dates.values())
+                    want = {k: (0.0 if hi == 0.0 else v if lo_ == 0.0 else hi - v) for k, v in dates.items()}
+                    st = o.sampling_times.detach()
+                    got = {nm: float(st[..., k]) for k, nm in enumerate(o.taxa)}
+                    if want != got:
+                        bad.append(("sampling-time-of-another-taxon", i, want, got))
+                bl = lit.get("branch_lengths")
+                bl = lits.get(bl, None) if isinstance(bl, str) else bl
+                if ty == "UnRootedTreeModel" and isinstance(bl, dict) and isinstance(bl.get("tensor"), list) \
+                        and set(bl) <= {"id", "type", "tensor", "dtype"} and not lit.get("keep_branch_lengths"):
+                    got = o.branch_lengths().detach()
+                    want = torch.tensor(bl["tensor"], dtype=got.dtype)
+                    w = {nm: float(want[k]) for k, nm in enumerate(names) if k < len(want)}
+                    g = {nm: float(got[..., k]) for k, nm in enumerate(o.taxa) if k < got.shape[-1]}
+                    if w != g:
+                        bad.append(("branch-length-of-another-taxon", i, w, g))
+        except Exception as e:  # noqa: BLE001  (an object this oracle cannot read is recorded, never a crash)
+            bad.append(("order-check-raised", i, f"{type(e).__name__}: {e}"[:160]))
+    return bad
+
+
 def update_violations(dic):
     """update every registered plain Parameter THROUGH THE REGISTRY'S INSTANCE, then re-evaluate every Distribution and
     compare with a torch distribution built directly from the registry's tensors: an unshared copy held inside a
@@ -543,6 +637,11 @@ def oracle(ck, U, spec, real, tag, found):
     oc = real["outcome"]
     if oc[0] == "ok":
         bad = sharing_violations(oc[1], oc[2])
+        if not bad and "expanded" in real:
+            ob = order_violations(real["expanded"], oc[2])
+            ck.bucket("order-checked")
+            if ob:
+                found.append(("order:" + ob[0][0], spec, tag, [list(map(str, b)) for b in ob]))
         if not bad:
             try:
                 bad = update_violations(oc[2])
@@ -721,10 +820,11 @@ def tree_family():
     DIFF = c13_gen.DIFF
 
     def base(ty, cyc=False):
-        names = ["tA", "tB", "tC"]
-        taxons = [{"id": n, "type": "Taxon", "attributes": {"date": 0.0}} for n in names]
+        # list order = leaf index; neither sorted, reverse-sorted, case-folded nor numeric order; a date per taxon
+        names = ["t2", "10", "T1"]
+        taxons = [{"id": n, "type": "Taxon", "attributes": {"date": d}} for n, d in zip(names, (0.0, 0.5, 0.25))]
         taxa = {"id": "tx", "type": "Taxa", "taxa": taxons}
-        t = {"id": "T", "type": ty, "newick": "((tA:1,tB:1):1,tC:2);", "taxa": taxa}
+        t = {"id": "T", "type": ty, "newick": "((t2:1,10:1):1,T1:2);", "taxa": taxa}
         nested = [("taxa", taxa)] + [("taxon%d" % i, x) for i, x in enumerate(taxons)]
         par = lambda i, v: {"id": i, "type": "Parameter", "tensor": v}  # noqa: E731
         if ty == "UnRootedTreeModel":
@@ -927,6 +1027,16 @@ def report(ck, U, ok, broken, found, note):
                 "holder-of-unregistered-id": "a reachable object carries an id the registry does not know",
                 "comment-has-effect": "underscore keys / ignored objects change what is loaded",
             }.get(sig, f"malformed specification accepted ({sig})")
+            if sig.startswith("order:"):
+                now = []
+                try:
+                    r = real_pipeline(U, small)
+                    now = order_violations(r["expanded"], r["outcome"][2]) if r["outcome"][0] == "ok" else []
+                except Exception:  # noqa: BLE001
+                    pass
+                now = [b for b in now if "order:" + b[0] == sig] or detail
+                what = ("an accepted load does not keep the order the specification gives (lists keep their order; taxon i "
+                        f"of a Taxa is leaf i) - {' '.join(map(str, now[0]))[:240]}")
             ck.violation("process_object:" + sig, what + ": " + json.dumps(small)[:300],
                          {"spec": small, "original_spec": spec if len(json.dumps(spec)) < 4000 else None, "tag": tag,
                           "detail": detail, "occurrences": len(lst), "broken_obligations": broken,
@@ -965,6 +1075,12 @@ def make_pred(U, sig):
             return (oc[0] == "err" and bool(oc[1]) and oc[1][-1][0] == "duplicate" and "expanded" in r
                     and not dup_literal_ids(r["expanded"]))
         return pred3
+    if sig.startswith("order:"):
+        def pred4(spec):
+            r = real_pipeline(U, spec)
+            oc = r["outcome"]
+            return oc[0] == "ok" and "expanded" in r and any("order:" + b[0] == sig for b in order_violations(r["expanded"], oc[2]))
+        return pred4
     if sig == "comment-has-effect":
         def pred2(spec):
             return not same_outcome(real_pipeline(U, spec), real_pipeline(U, strip_comments(copy.deepcopy(spec))))
@@ -1036,6 +1152,8 @@ def replay(path: str) -> int:
     if oc[0] == "ok":
         bad = sharing_violations(oc[1], oc[2])
         print("accepted; registry keys:", list(oc[2].keys()))
+        if not bad and "expanded" in real:
+            bad = order_violations(real["expanded"], oc[2])
         for b in bad:
             print("  VIOLATES:", b)
         if not bad and obj.get("tag") and obj["tag"][1]:
